@@ -1095,6 +1095,7 @@ static void gen_relay(uint64_t seed, const std::string &prop, Plan &plan) {
     if (plan.p["tcp_buf"] < 2048) plan.p["tcp_buf"] = 2048 << r.below(4);
     plan.p["counters"] = 0;
     plan.p["ctl"] = 0;
+    if (plan.S("tp") == "btls" || plan.S("tp2") == "btls") plan.p["eintr_pm"] = 0;   // (an interrupted blocking send on an endpoint's own btls leg only re-finds KF-C02-1c)
     plan.p["retry_policy"] = 0;   // endpoints retry a refused byte-stream send with the same bytes (the other policies only re-find KF-C02-1 on their own btls leg)
     // the settle-point inspection presumes a direct connection (kernel idleness of one connection): not here
     std::vector<Op> ops;
